@@ -471,6 +471,10 @@ impl Decoder {
                 .decrypt_padded_mut::<NoPadding>(&mut wrapped_key)
                 .map_err(|_| PdfError::InvalidPassword));
 
+            // (/UE and /OE come from the file: anything but a 32-byte key is not one)
+            if key_slice.len() != 32 {
+                err!(PdfError::InvalidPassword);
+            }
             let decoder = Decoder::new(key_slice.into(),  32, method, dict.encrypt_metadata);
             Ok(decoder)
         } else {
